@@ -367,6 +367,14 @@ class CallGraph:
         return out
 
     def call_sites(self, f):
+        home = self.prog.funcs.get(f.qual)
+        if home is not None and home.node is not f.node:
+            # a view of the function (helpers written back in, options at their defaults): its own call nodes
+            cache = self.__dict__.setdefault("_view_sites", {})
+            if id(f.node) not in cache:
+                from .loader import walk_no_nested_defs
+                cache[id(f.node)] = [(c, self.resolve(c, f)) for c in walk_no_nested_defs(f.node) if isinstance(c, ast.Call)]
+            return cache[id(f.node)]
         return self.calls.get(f.qual, [])
 
     def reachable(self, roots):
